@@ -7,7 +7,7 @@ import shutil
 import os
 import time
 
-from common import (HARNESS, REPLAYS, ToolError, build_harness, digest, load_known, log, sh,
+from common import (HARNESS, REPLAYS, ROOT, ToolError, build_harness, digest, load_known, log, sh,
                     tlc_model, tlc_trace, workdir, write_evidence)
 
 # design-level model configurations: (module, cfg, actions that must have been taken)
@@ -389,9 +389,57 @@ def match_known(prop, obs, info):
     return None
 
 
+SCHEDSYM = {"quick": [(7, 16), (1, 1), (4, 1)],
+            "thorough": [(1, 1), (1, 5), (2, 2), (3, 16), (4, 1), (5, 4), (7, 16), (10, 32)]}
+
+
+def apalache(args, wd, timeout=900):
+    """returns 'ok' | 'violated'; anything else is a tool error"""
+    out = os.path.join(wd, "apalache")
+    rc, o = sh("timeout %d apalache-mc check %s --out-dir=%s %s" % (timeout, args, out, os.path.join(ROOT, "spec", "SchedSym.tla")),
+               cwd=wd, timeout=timeout + 30, check=False)
+    if "The outcome is: NoError" in o and rc == 0:
+        return "ok"
+    if "The outcome is: Error" in o and rc == 12:
+        return "violated"
+    raise ToolError("apalache-mc %s: exit %d\n%s" % (args, rc, o[-3000:]))
+
+
+def schedsym(tier, wd):
+    """C06, design level, symbolic: for every RTO >= 1 and every sequence of timer calls of any length
+    (inductive invariant of SchedSym.tla, per literal (Rc, Rm)); plus probes that must be violated."""
+    t = time.time()
+    done = []
+    for rc_, rm_ in SCHEDSYM[tier]:
+        c = "--cinit=CInit_%d_%d" % (rc_, rm_)
+        for q, want in (("--init=Init --inv=IndInv --length=0", "ok"),
+                        ("--init=IndInit --inv=IndInv --length=1", "ok"),
+                        ("--init=IndInit --inv=C06Design --length=0", "ok")):
+            got = apalache("%s %s" % (c, q), wd)
+            if got != want:
+                raise ToolError("SchedSym.tla (Rc=%d, Rm=%d): %s -> %s - the symbolic schedule model or its "
+                                "invariant is wrong" % (rc_, rm_, q, got))
+        done.append({"rc": rc_, "rm": rm_, "inductive_invariant": "holds", "C06Design": "follows"})
+    probes = []
+    for c, q in (("--cinit=CInit_4_1", "--init=Init --inv=NeverFails --length=12"),
+                 ("--cinit=CInit_4_1", "--init=Init --inv=NeverSkips --length=6"),
+                 ("--cinit=CInit_7_16", "--init=IndInit --inv=NeverRetransmits --length=1")):
+        got = apalache("%s %s" % (c, q), wd)
+        if got != "violated":
+            raise ToolError("SchedSym.tla probe %s should be violated (vacuity)" % q)
+        probes.append(q.split("--inv=")[1].split()[0])
+    log("[apalache] SchedSym.tla: inductive invariant + C06Design for %d (Rc, Rm) configurations, all RTO >= 1, "
+        "%d probes violated as they must, %.0fs" % (len(done), len(probes), time.time() - t))
+    return {"module": "SchedSym.tla", "engine": "apalache-mc (symbolic, inductive invariant)",
+            "quantifies": "every RTO >= 1, every sequence of timer calls of any length, one request",
+            "configurations": done, "vacuity_probes_violated": probes, "wall_s": round(time.time() - t, 1)}
+
+
 def design_models(prop, tier, wd):
     states = trans = 0
     info = []
+    if prop == "C06":
+        info.append(schedsym(tier, wd))
     for module, cfg, actions in MODELS[prop] + (MODELS_THOROUGH_EXTRA.get(prop, []) if tier == "thorough" else []):
         r = tlc_model(module, cfg, wd, workers=12, timeout=1500)
         if r["violated"]:
